@@ -12,6 +12,7 @@ PANIC = {"vm-null", "vm-no-key"}                                             # P
 LAX = set()       # LaxDefects of the descriptive cfgs (F20-C09 repaired: embedded methods are validated like the listed ones)
 ASSUMPTIONS = ["SHA-256 / RFC 7638 thumbprints are collision free", "bbolt commits atomically; one store.Add at a time (the callers serialise)",
                "jwx verifies ES256 correctly", "small scope: <= 5 transactions per event set, <= 3 DIDs (7 in the controller chain), 5 keys",
+               "the lamport clock of a received transaction respects its prevs (checked by the DAG before the ambassador sees it); signing times are arbitrary",
                "JSON members the model does not talk about (contexts, assertionMethod, key agreement) are functions of the modelled content"]
 
 
@@ -360,7 +361,7 @@ def run_amb(prop, tier, seed, rep, t0):
     binary = driver_binary()
     models, cover = [], {}
     states = transitions = 0
-    check_cfgs = ["DidStore.amb.%s.cfg" % tier, "DidStore.chain.cfg"]
+    check_cfgs = ["DidStore.amb.%s.cfg" % tier, "DidStore.chain.cfg", "DidStore.hist.%s.cfg" % tier]
     for cfg in check_cfgs:
         # -coverage slows TLC down by an order of magnitude: the vacuity guard of the thorough tier uses the small chain configuration
         m = tlc_ok(cfg, (not quick) and cfg == "DidStore.chain.cfg", "prescriptive receive pipeline")
@@ -375,12 +376,21 @@ def run_amb(prop, tier, seed, rep, t0):
         models.append(model_entry("DidStore.amb.desc.cfg", d, expected_violation=d.violation, note="the pipeline as implemented: TLC finds the deviation"))
         if not found:
             raise Inconclusive("the descriptive pipeline model violates neither NoPanic nor KeysChangeOnlyByAuthorized: deviation constants are vacuous")
+        # the history universe and the reference must SEE a store that orders versions by signing time / forgets a merged deactivation
+        for cfg in ("DidStore.hist.dev.clock.cfg", "DidStore.hist.dev.deact.cfg"):
+            d, found = tlc_expect_violation(cfg, ("KeysChangeOnlyByAuthorized",))
+            models.append(model_entry(cfg, d, expected_violation=d.violation, note="design variant the property forbids: TLC finds the unauthorised update"))
+            if not found:
+                raise Inconclusive("%s does not violate KeysChangeOnlyByAuthorized: the history universe is blind to this class" % cfg)
     all_results, by_id, all_traces = [], {}, []
     n_states_total = 0
     base_inputs = {}
     plans = [("DidStore.amb.gen%s.cfg" % ("" if quick else ".thorough"), "m", ["A", "B", "C"], (["cA", "uA1", "uAx"] if quick else ["cA", "uA1", "uAx", "uAbB"]),
               (60 if quick else 400), (6 if quick else 8)),
-             ("DidStore.chain.gen.cfg", "c", ["D1", "D2", "D3", "D4", "D5", "D6", "D7"], ["h1", "g2"], (24 if quick else 0), 2)]
+             ("DidStore.chain.gen.cfg", "c", ["D1", "D2", "D3", "D4", "D5", "D6", "D7"], ["h1", "g2"], (24 if quick else 0), 2),
+             # kinds of history (a branch merged with a deactivation, of the DID and of its controller; signing times that contradict
+             # the lamport clock): every state of the sub-universes, every transaction of the sub-universe received there
+             ("DidStore.hist.gen%s.cfg" % ("" if quick else ".thorough"), "h", ["A", "B", "C"], [], 0, 0)]
     tables = None
     for cfg, prefix, dids, carriers, n_states, n_def in plans:
         # workers=1: the witness path printed for a state is then a function of the model alone (reproducible runs)
@@ -430,7 +440,8 @@ def run_amb(prop, tier, seed, rep, t0):
                rule="TLC exhausts the receive pipeline model (every delivery sequence of the transaction universe x every defect class) and checks "
                     "KeysChangeOnlyByAuthorized / RejectedChangesNothing against the declarative reference; for every distinct model state (sampled in quick) "
                     "the witness history is replayed on the real verifier + ambassador + store and EVERY transaction of the universe (+ defective documents) "
-                    "is received there; accepted => authorised by a reference over the real prior documents and well-formed by a reference over the raw JSON; "
+                    "is received there; accepted => authorised by a reference over the HISTORY of accepted transactions (versions, their order by lamport clock, "
+                    "merged branches and deactivation derived from the published documents, not read from the store) and well-formed by a reference over the raw JSON; "
                     "rejected/panic => resolvable state and authorised keys of every DID unchanged; traces are validated by TLC")
     vlib.write_evidence(prop, tier, seed, "model_checking", cov, time.time() - t0, len(rep.violations), ASSUMPTIONS)
     return rep.finish()
